@@ -16,11 +16,21 @@ class Dups:
     proved = True
 
     def bound(self, tier):
-        return ("all assignments of 6 contents (incl. empty, differing in last byte / length) to <=4 files, "
+        return ("(same directory reused by every case of the run) all assignments of 6 contents (incl. empty, differing in last byte / length) to <=4 files, "
                 "each file optionally a symlink to an earlier one, one optional excluded twin"
                 + ("" if tier == "quick" else "; plus 300 random code bases of <=9 files in nested dirs"))
 
     def inputs(self, tier, seed):
+        for k, inp in enumerate(self._inputs(tier, seed)):
+            inp["k"], inp["tier"], inp["seed"] = k, tier, seed
+            yield inp
+
+    def decode(self, j):
+        j = dict(j)
+        j["_replay"] = True
+        return j
+
+    def _inputs(self, tier, seed):
         n_max = 3 if tier == "quick" else 4
         for n in range(1, n_max + 1):
             for contents in itertools.product(range(len(POOL)), repeat=n):
@@ -40,8 +50,31 @@ class Dups:
         c = inp["contents"]
         return len(c) != len(set(c))
 
+    _root = None
+
     def check(self, inp):
-        root = tempfile.mkdtemp(prefix="cbi_c16_")
+        if inp.get("_replay"):
+            # a replay re-creates the history of the run first: every earlier case, in the same process and directory
+            for prev in self._inputs(inp.get("tier", "quick"), inp.get("seed", 0)):
+                k = getattr(self, "_k", 0)
+                self._k = k + 1
+                if k >= inp.get("k", 0):
+                    break
+                self._check(prev)
+            self._k = 0
+        return self._check(inp)
+
+    def _check(self, inp):
+        # one directory for every case of the run: the same paths are seen again with other contents (and the same
+        # size / mtime), so anything remembered from an earlier call in this process is stale
+        if Dups._root is None:
+            Dups._root = tempfile.mkdtemp(prefix="cbi_c16_")
+            import atexit
+            atexit.register(shutil.rmtree, Dups._root, True)
+        root = Dups._root
+        for name in os.listdir(root):
+            q = os.path.join(root, name)
+            shutil.rmtree(q) if os.path.isdir(q) and not os.path.islink(q) else os.unlink(q)
         try:
             paths = []
             for i, ci in enumerate(inp["contents"]):
@@ -76,7 +109,7 @@ class Dups:
                 return {"expected": rel(exp), "observed": rel(obs), "klass": "find_duplicates"}
             return None
         finally:
-            shutil.rmtree(root, ignore_errors=True)
+            pass
 
 
 TARGETS = {"codebasin.report:find_duplicates": Dups()}
